@@ -114,9 +114,6 @@ Proof.
   intros i n Hn. unfold upd in Hn. destruct (i =? w_next w); [injection Hn as <-; intros f []|exact (proj1 NF i n Hn)].
 Qed.
 
-Lemma wmap_unit (m : W unit) w r w' : wunit m w = Val (r, w') -> exists r0, m w = Val (r0, w').
-Proof. apply wunit_inv. Qed.
-
 Theorem step_files o w r w' :
   single_version v [o] = true -> FilesV v w -> NFE w ->
   run_op T tab_el tab_en check_fn LATEST root_attrs o w = Val (r, w') -> FilesV v w' /\ NFE w'.
